@@ -61,7 +61,7 @@ def make_system(rng, kind, nrb, nel, nrf, mform, wh=(0.05, 2.5), h=0.01, zetas=N
             # longer symmetric (the solvers take general matrices; inv(m) and inv(m).T are then different things)
             for _ in range(50):
                 L = np.eye(nel) + 0.3 * rng.standard_normal((nel, nel))
-                if np.linalg.cond(L) <= 30:
+                if np.linalg.cond(L) <= 10:
                     break
             M[ix] = L @ M[ix]
             B[ix] = L @ B[ix]
